@@ -146,8 +146,8 @@ PROPS["C01"] = {
     "reasons": {"forward": FWD_REASONS,
                 "bytes": {"8": "the target did not receive exactly the bytes the client sent (a valid but non-canonical encoding was decoded and re-encoded on the way, or a message was lost / duplicated / reordered)",
                           "9": "the client did not receive exactly the bytes the target sent",
-                          "10": "a fault-free call did not end with the target's OK status"}},
-    "rule": "random call scripts (4 RPC kinds; 0-3 client messages then EOF/error/silence; 0-3 target messages with causal guards then EOF/status/silence; rare send/open failures; 45% a context event) each run 3x on the real ProxyForwarder / grpcbridge.Forwarder with scripted fake streams under seeded Gosched/sleep perturbation; fakes keep the proto.Message pointers and compare contents at the end; non-trivial = script with client items and target items. bytes: the real ServiceRouter (holding a description that lists the called methods with their message types) and GRPCProxy over bufconn, a raw-codec gRPC client and a scripted target exchanging valid but non-canonical encodings (default values written out, a singular field twice, unknown fields before / after known ones, non-minimal varints and length prefixes, empty messages) on all four RPC kinds; received bytes = sent bytes, in order, both ways",
+                          "10": "the client did not receive the target's final status: code, message and details (compared as the bytes of the status proto)"}},
+    "rule": "random call scripts (4 RPC kinds; 0-3 client messages then EOF/error/silence; 0-3 target messages with causal guards then EOF/status/silence; rare send/open failures; 45% a context event) each run 3x on the real ProxyForwarder / grpcbridge.Forwarder with scripted fake streams under seeded Gosched/sleep perturbation; fakes keep the proto.Message pointers and compare contents at the end; non-trivial = script with client items and target items. bytes: the real ServiceRouter (holding a description that lists the called methods with their message types) and GRPCProxy over bufconn, a raw-codec gRPC client and a scripted target exchanging valid but non-canonical encodings (default values written out, a singular field twice, unknown fields before / after known ones, non-minimal varints and length prefixes, empty messages) on all four RPC kinds; received bytes = sent bytes, in order, both ways; in a third of the calls the target ends with a non-OK status carrying a message and 0-2 details, which the client must receive unchanged",
     "level_text": "Coq theorems over ALL scripts and ALL schedules of the forwarder LTS (induction on reachability, one case per atomic step): requests/responses seen are prefixes of what was sent, in order; non-streaming directions carry at most one message; and nothing is dropped: for every fault-free script (no context event, no adapter failure, conformant target) and every schedule, a returned call reports exactly the target's final status, has delivered ALL response messages, and - when the target ended after the whole request stream - all requests and the half-close. Tied to the code by running the real Forward on scripted fakes and checking that the observed outcome is one the model can produce (exhaustive exploration of the model, used only as validation) and satisfies the executable property.",
     "level_note": "Trusted: Coq kernel, extraction, modelrun, Go harness fakes. Modelled, not verified: Go channel/goroutine semantics at the granularity of DESIGN appendix A.1; grpc-go behind AdaptedClientStream; byte identity: the forwarder model treats messages as opaque; that proxied messages travel as raw bytes (the service router hands out the dummy method) is checked by the part bytes, that an empty message with unknown fields re-marshals to the same bytes is protobuf-go's.",
     "design_ref": "DESIGN.md §3 C01, appendix A.1",
@@ -359,12 +359,20 @@ PROPS["C18"] = {
               {"name": "ws", "pkg": "c18", "chk": "chk_c18", "race": True, "args": ["ws"], "env": {"GORACE": "halt_on_error=1 exitcode=66"},
                "crash_reasons": {"66": 1, "*": 2}, "timeout": {"quick": 300, "thorough": 1800}},
               {"name": "tick", "pkg": "c18", "chk": "chk_c18", "race": True, "args": ["tick"], "env": {"GORACE": "halt_on_error=1 exitcode=66"},
-               "crash_reasons": {"66": 1, "*": 2}, "timeout": {"quick": 120, "thorough": 120}}],
+               "crash_reasons": {"66": 1, "*": 2}, "timeout": {"quick": 120, "thorough": 120}},
+              {"name": "routers_pattern", "pkg": "c11", "chk": "chk_c11_stress", "race": True, "args": ["stress_pattern"], "env": {"GORACE": "halt_on_error=1 exitcode=66"},
+               "crash_reasons": {"66": 8, "*": 9}, "timeout": {"quick": 300, "thorough": 600}},
+              {"name": "routers_service", "pkg": "c11", "chk": "chk_c11_stress", "race": True, "args": ["stress_service"], "env": {"GORACE": "halt_on_error=1 exitcode=66"},
+               "crash_reasons": {"66": 8, "*": 9}, "timeout": {"quick": 300, "thorough": 600}}],
     "reasons": {"race": {"1": "the race detector reported a data race", "2": "a per-stream concurrent-use guard tripped, or another panic crashed the process"},
+                "routers_pattern": {"8": "the race detector reported a data race inside the pattern router: 8 goroutines watching, describing twice and closing their own target, concurrently with lookups", "9": "the router panicked",
+                                    "1": "(as C11 stress) a lookup was routed to a target after its watcher's Close had returned", "2": "(as C11 stress) a stable route was momentarily unroutable", "3": "(as C11 stress) a lookup returned a mixture of two descriptions"},
+                "routers_service": {"8": "the race detector reported a data race inside the service router: 8 goroutines watching, describing twice and closing their own target, concurrently with lookups", "9": "the router panicked",
+                                    "1": "(as C11 stress) a lookup was routed to a target after its watcher's Close had returned", "2": "(as C11 stress) a stable route was momentarily unroutable", "3": "(as C11 stress) a lookup returned a mixture of two descriptions"},
                 "tick": {"1": "the race detector reported a data race between the resolver's poller and a ResolveNow caller that had loaded the notify function before the interval tick", "2": "the resolver panicked (e.g. a notify function closing an already closed channel)"},
                 "ws": {"1": "the race detector reported a data race", "2": "a per-stream concurrent-use guard tripped, or another panic crashed the process",
                        "3": "a message the target received on a client-streaming WebSocket call is not one the client sent (a read buffer reused while still being decoded)"}},
-    "rule": "a complete bridge built with the race detector: ReflectionRouter with polling every 3 ms over a real gRPC target on bufconn (reflection + the test service), GRPCProxy on a second bufconn server, WebBridge behind a real HTTP server; 13 goroutines for the whole duration (6 s quick, 150 s thorough): 4 transcoded HTTP callers (valid, invalid and unrouted requests, query parameters), 2 gRPC-Web callers, 2 WebSocket callers (transcoded and grpc-websockets, some abandoned mid-call), 3 gRPC callers through the proxy (unary, bidi streams, unbound methods), 2 goroutines adding and removing the same two extra targets (so that Add/Remove, description updates, watcher Close and polls overlap with each other and with all calls). GORACE=halt_on_error: the first report ends the run with the race detector's exit code; any panic (the per-stream concurrent-use guards included) crashes it. ws: 8 goroutines of client-streaming WebSocket calls (transcoded and grpc-websockets) that send 10-40 frames back to back to a recording fake target, 3 s (60 s); every received message must be one that was sent. tick: one forced interleaving of a stand-alone reflection resolver (interval polling at its 1 s floor, scripted reflection server): a ResolveNow caller held by the verif yield hook between loading and calling the notify function while the interval timer fires and its poll is held open, then two more ResolveNow calls",
+    "rule": "a complete bridge built with the race detector: ReflectionRouter with polling every 3 ms over a real gRPC target on bufconn (reflection + the test service), GRPCProxy on a second bufconn server, WebBridge behind a real HTTP server; 13 goroutines for the whole duration (6 s quick, 150 s thorough): 4 transcoded HTTP callers (valid, invalid and unrouted requests, query parameters), 2 gRPC-Web callers, 2 WebSocket callers (transcoded and grpc-websockets, some abandoned mid-call), 3 gRPC callers through the proxy (unary, bidi streams, unbound methods), 2 goroutines adding and removing the same two extra targets (so that Add/Remove, description updates, watcher Close and polls overlap with each other and with all calls). GORACE=halt_on_error: the first report ends the run with the race detector's exit code; any panic (the per-stream concurrent-use guards included) crashes it. ws: 8 goroutines of client-streaming WebSocket calls (transcoded and grpc-websockets) that send 10-40 frames back to back to a recording fake target, 3 s (60 s); every received message must be one that was sent. tick: one forced interleaving of a stand-alone reflection resolver (interval polling at its 1 s floor, scripted reflection server): a ResolveNow caller held by the verif yield hook between loading and calling the notify function while the interval timer fires and its poll is held open, then two more ResolveNow calls. routers_pattern / routers_service: the C11 free-running router stress (8 goroutines that watch, describe twice and close their own target while others look routes up) built with the race detector",
     "level_text": "Coq theorems over ALL thread sets and interleavings of the routers' concurrent protocol: the table mutex is held by at most one thread, exactly between the two phases of an update, and every other mutation is disabled meanwhile; the per-watcher mutex has at most one holder (C11 invariant). Data-race freedom itself is a statement about Go executions that no Gallina model exhibits: it is MONITORED by the race-detector workload (partial - absence of reports on the explored schedules is not a theorem).",
     "level_note": "Trusted: Coq kernel, the Go race detector, the workload's coverage of schedules. The per-stream guards cannot trip in the Forward model by construction (one program counter per pump thread).",
     "design_ref": "DESIGN.md §3 C18",
